@@ -13,6 +13,10 @@ REQUIRED = [
     "DaeVerif.C18.Props.domain_cao_route_failure",
     "DaeVerif.C18.Props.route_consulted_at_name_only",
     "DaeVerif.C18.Props.no_reroute_keeps_outbound",
+    "DaeVerif.C18.Props.control_plane_routing_dial",
+    "DaeVerif.C18.Props.genuine_stable",
+    "DaeVerif.C18.Props.domain_mode_genuine_dial",
+    "DaeVerif.C18.Props.retry_makes_same_decision",
     "DaeVerif.C18.Props.ip_literal_normalised",
     "DaeVerif.C18.Props.bracketed_literal_same_as_bare",
     "DaeVerif.C18.Props.carried_port_kept",
@@ -20,15 +24,21 @@ REQUIRED = [
     "DaeVerif.C18.Props.name_target_well_formed",
     "DaeVerif.C18.Props.ip_literal_target_well_formed",
     "DaeVerif.C18.Props.ip_target_well_formed",
+    "DaeVerif.C18.Props.sniffed_value_no_port_left",
+    "DaeVerif.C18.Props.sniffed_value_target",
     "DaeVerif.C18.Props.sniffed_plain_name",
     "DaeVerif.C18.Props.sniffed_host_port",
     "DaeVerif.C18.Props.sniffed_bracketed_literal",
     "DaeVerif.C18.Props.knowledge_only_from_resolution_within_ttl",
+    "DaeVerif.C18.Props.knowledge_names_the_resolved_name",
     "DaeVerif.C18.Props.knowledge_holds_until_original_ttl",
+    "DaeVerif.C18.Props.knowledge_key_ignores_case",
+    "DaeVerif.C18.Props.dns_response_ignored_unless_noerror",
+    "DaeVerif.C18.Props.dns_noerror_is_a_resolution",
     "DaeVerif.C18.Props.real_set_only_from_positive_probe",
+    "DaeVerif.C18.Props.real_set_bounded",
     "DaeVerif.C18.Props.genuine_name_has_witness",
     "DaeVerif.C18.Props.negative_cached_name_not_used",
-    "DaeVerif.C18.Props.knowledge_key_ignores_case",
 ]
 
 
@@ -37,7 +47,12 @@ def run(ctx):
         "Go stdlib / miekg-dns functions are re-modelled in Lean (net.SplitHostPort, net.JoinHostPort, netip.ParseAddr success, "
         "netip.AddrPort.String, strconv.Itoa, dns.CanonicalName, strings.TrimSpace/ToLower on ASCII) and differential-tested on every run; "
         "not verified against their sources",
-        "realDomainSet is a Bloom filter (2048 / 0.001): modelled as an exact set, false positives are not modelled",
+        "realDomainSet is a Bloom filter sized for 2048 names at p=0.001 and cleared when 2048 names have been added (fix 08fa06d): "
+        "modelled as an exact set with the same counter and clear; the residual design false-positive rate (<= 0.001 within capacity) "
+        "is the one approximation; the constructor parameters are checked in the source text, the clear threshold by the `sat` episode",
+        "the dial-target table is checked for TCP dials (routeDial). UDP (handlePkt) deliberately always sends realDst.String() to the "
+        "node (udp.go: 'Keep UDP target pinned to original destination IP'); chooseProxyDialer is still used there for dialer selection "
+        "and the re-route by name. Not driven by this check.",
         "c.Route(src,dst,name,…) is an oracle `route name` (routing itself is C01/C07); dialer selection inside the group is C15",
         "testing/synctest virtual time; the asynchronous probe is awaited with synctest.Wait, i.e. compared at quiescence",
     ]
@@ -56,6 +71,20 @@ def run(ctx):
         ctx.proof_failures.append("model driver c18drv failed to run")
     mism = ctx.diff_streams(ops, impl, model, "c18")
 
+    # the production constructor of the verified-name filter (the harness builds its ControlPlane by literal)
+    import re
+    src = open(os.path.join(os.environ.get("VERIF_REPO", "/repo"), "control", "control_plane.go"), encoding="utf-8").read()
+    m = re.search(r"realDomainSet:\s*bloom\.NewWithEstimates\(([^,]+),\s*([^)]+)\)", src)
+    cap = None
+    if m:
+        cap = m.group(1).strip()
+        if cap == "realDomainSetCapacity":
+            mc = re.search(r"const\s+realDomainSetCapacity\s*=\s*(\d+)", src)
+            cap = mc.group(1) if mc else None
+    if not m or cap != "2048" or m.group(2).strip() != "0.001":
+        ctx.report("the verified-name filter is not constructed as the model assumes (bloom.NewWithEstimates(2048, 0.001)): "
+                   + (m.group(0) if m else "constructor call not found"), {"file": "control/control_plane.go"})
+
     ops_l, impl_l = read_lines(ops), read_lines(impl)
     distinct = set()
     n_decisions = 0
@@ -71,11 +100,24 @@ def run(ctx):
         if im.startswith("crash:"):
             ctx.report(f"real code panicked on `{op}`: {im}", {"op": op, "impl": im})
     # context for a mismatch: the episode prefix (ops since the last reset) makes the replay self-contained
+    STDLIB_OPS = {"pa": "netip.ParseAddr", "shp": "net.SplitHostPort", "jhp": "net.JoinHostPort", "ap": "netip.AddrPort.String",
+                  "canon": "miekg dns.CanonicalName"}
     for ln, op, im, mo in mism[:10]:
+        kind0 = op.split(" ", 1)[0]
+        if kind0 in STDLIB_OPS:
+            ctx.report(f"stdlib model drift (no dae code involved): {STDLIB_OPS[kind0]} differs from its Lean re-model at line {ln}: "
+                       f"op `{op}` real `{im}` model `{mo}` — update Model.lean to the new library behaviour and re-prove",
+                       {"stream": "c18", "line": ln, "op": op, "impl": im, "model": mo})
+            continue
+        if kind0 == "resv":
+            ctx.report(f"the set of built-in (reserved) outbound indices changed: `{op}` IsReserved={im}, model {mo} — "
+                       "the decision table's first row depends on it; update isReserved in Model.lean if intended",
+                       {"stream": "c18", "line": ln, "op": op, "impl": im, "model": mo})
+            continue
         start = ln - 1
         while start > 0 and ops_l[start - 1] != "reset":
             start -= 1
-        prefix = ops_l[max(start - 1, 0):ln] if op.split(" ", 1)[0] in ("cdt", "dial", "has", "look", "dns", "rm") else [op]
+        prefix = ops_l[max(start - 1, 0):ln] if op.split(" ", 1)[0] in ("cdt", "dial", "has", "look", "dns", "rm", "rmf", "evict", "reload", "close", "dnsresp") else [op]
         ctx.report(f"implementation differs from proved model at line {ln}: op `{op}` impl `{im}` model `{mo}`",
                    {"stream": "c18", "line": ln, "op": op, "impl": im, "model": mo, "episode": prefix[-60:],
                     "replay": "VERIF_SEED=%d ./check C18 %s" % (ctx.seed, ctx.tier)})
@@ -90,5 +132,6 @@ def run(ctx):
     ]
     return ctx.finish(rule="one evaluation = one op line compared between real code and model (pure string functions, state "
                            "transitions, ChooseDialTarget and routeDial decisions); distinct_nontrivial counts distinct "
-                           "cdt/dial ops (mode x outbound x destination x sniffed string x cache history)",
+                           "cdt/dial op lines (they include the destination and the probe script, so this is NOT a count of table cells; "
+                           "the cells hit are the cdt.mode.*, cdt.domain-row.*, cdt.outbound.*, cdt.class.* counters)",
                       evaluations=len(ops_l), distinct=len(distinct))
